@@ -32,7 +32,7 @@ VARIABLES sess,   \* session label -> [ph, reg, nxt, peer, ic, it, idone, gr, la
           edge,   \* peer ids with an adjacency edge in the own row
           owed,   \* peers the current ageing scan has to cut
           dlr,    \* dialer label -> [st, sess, redial, base, next, wt, wd, cd]
-          nd,     \* [stopped, waited, maxidle, poll, slack]: Shutdown/CancelBackends announced, BackendWait returned, constants
+          nd,     \* [stopped, down, waited, maxidle, poll, slack]: Shutdown/CancelBackends announced, Shutdown announced, BackendWait returned, constants
           l, skip
 
 vars == <<sess, conn, edge, owed, dlr, nd, l, skip>>
@@ -45,7 +45,7 @@ EmptyF == [x \in {} |-> 0]
 IsEv(e) == l <= Len(Trace) /\ E.ev = e
 Live(e) == IsEv(e) /\ ~skip
 
-NoNd == [stopped |-> FALSE, waited |-> FALSE, maxidle |-> 0, poll |-> 0, slack |-> 0]
+NoNd == [stopped |-> FALSE, down |-> FALSE, waited |-> FALSE, maxidle |-> 0, poll |-> 0, slack |-> 0]
 NewS == [ph |-> "fresh", reg |-> FALSE, nxt |-> "ret", peer |-> "", ic |-> 0, it |-> 0, idone |-> FALSE,
          gr |-> {"reader", "writer", "init"}, lastrx |-> -1]
 
@@ -171,10 +171,20 @@ TKnownDel ==
          s == IF cand # {} THEN CHOOSE x \in cand : TRUE ELSE ""
          newer == {x \in DOMAIN sess : sess[x].peer = E.peer /\ sess[x].ph \in {"adj", "upd", "est"}}
          d == (IF cand = {} THEN {"known_del_without_removal_in_progress"} ELSE {})
-              \cup (IF newer # {} THEN {"known_del_removed_edge_of_newer_session"} ELSE {})
+              \cup (IF newer # {} \/ Has(conn, E.peer) THEN {"known_del_removed_edge_of_newer_session"} ELSE {})
      IN /\ sess' = IF cand # {} THEN [sess EXCEPT ![s].ph = sess[s].nxt] ELSE sess
         /\ edge' = edge \ {E.peer}
         /\ UNCHANGED <<conn, owed, dlr, nd>> /\ Advance(d)
+
+\* removeConnection, second section, when a new session of the peer has been admitted meanwhile: the edge stays
+TKnownKeep ==
+  /\ Live("known_keep")
+  /\ LET cand == {s \in DOMAIN sess : sess[s].peer = E.peer /\ sess[s].ph = "rmk"}
+         s == IF cand # {} THEN CHOOSE x \in cand : TRUE ELSE ""
+         d == (IF cand = {} THEN {"known_keep_without_removal_in_progress"} ELSE {})
+              \cup (IF ~Has(conn, E.peer) THEN {"edge_kept_without_connection"} ELSE {})
+     IN /\ sess' = IF cand # {} THEN [sess EXCEPT ![s].ph = sess[s].nxt] ELSE sess
+        /\ UNCHANGED <<conn, edge, owed, dlr, nd>> /\ Advance(d)
 
 \* the deferred function of runProtocol starts: everything of the session must have been taken out before
 TSessEnd ==
@@ -199,7 +209,7 @@ TReq ==
          s == IF cand # {} THEN CHOOSE x \in cand : TRUE ELSE ""
          ev == IF E.what = "update" THEN "req_update" ELSE IF E.what = "rebuild" THEN "req_rebuild" ELSE "req_skip"
          d == (IF cand = {} THEN {"request_" \o E.what \o "_without_ended_session"} ELSE {})
-              \cup (IF E.what = "skip" /\ ~nd.stopped THEN {"request_skipped_while_backend_context_alive"} ELSE {})
+              \cup (IF E.what = "skip" /\ ~nd.down THEN {"request_skipped_while_node_context_alive"} ELSE {})
      IN /\ sess' = IF cand # {} THEN [sess EXCEPT ![s].ph = After(sess[s].ph, ev, TRUE, "ret")] ELSE sess
         /\ UNCHANGED <<conn, edge, owed, dlr, nd>> /\ Advance(d)
 
@@ -224,7 +234,7 @@ TIdleScanEnd ==
   /\ UNCHANGED <<sess, conn, edge, dlr, nd>> /\ Advance(IF owed # {} THEN {"idle_connection_not_cut"} ELSE {})
 
 TStop == /\ (Live("shutdown") \/ Live("h_cancel"))
-         /\ nd' = [nd EXCEPT !.stopped = TRUE]
+         /\ nd' = [nd EXCEPT !.stopped = TRUE, !.down = @ \/ E.ev = "shutdown"]
          /\ UNCHANGED <<sess, conn, edge, owed, dlr>> /\ Advance({})
 
 THWaitDone == /\ Live("h_waitdone")
@@ -235,7 +245,7 @@ THWaitDone == /\ Live("h_waitdone")
 Leftovers ==
   (IF \E s \in DOMAIN sess : sess[s].ph \in {"rmc", "rmk", "rej", "ret", "end1", "end2"} THEN {"clean_up_unfinished"} ELSE {})
   \cup (IF \E s \in DOMAIN sess : sess[s].ph = "none" /\ sess[s].gr # {} THEN {"goroutines_left_after_session_end"} ELSE {})
-  \cup (IF \E p \in edge : ~\E s \in DOMAIN sess : sess[s].peer = p /\ sess[s].ph \in EdgePh THEN {"adjacency_edge_without_session"} ELSE {})
+  \cup (IF \E p \in edge : ~\E s \in DOMAIN sess : sess[s].peer = p /\ sess[s].ph \in EdgePh \cup ListedPh THEN {"adjacency_edge_without_session"} ELSE {})
   \cup (IF \E p \in DOMAIN conn : ~(Has(sess, conn[p]) /\ sess[conn[p]].ph \in ListedPh) THEN {"connection_without_open_session"} ELSE {})
   \cup (IF \E s \in DOMAIN sess : sess[s].ph \in {"adj", "upd", "est"} /\ sess[s].peer \notin edge THEN {"established_session_without_adjacency_edge"} ELSE {})
 
@@ -333,7 +343,7 @@ TLExit ==
 
 TOther == /\ Live("other") /\ UNCHANGED <<sess, conn, edge, owed, dlr, nd>> /\ Advance({})
 
-TNext == TReset \/ Skipped \/ TSessStart \/ TRx \/ TInitSend \/ TInitGiveup \/ TInitDone \/ TGExit \/ TConnAdd \/ TKnownAdd
+TNext == TReset \/ Skipped \/ TKnownKeep \/ TSessStart \/ TRx \/ TInitSend \/ TInitGiveup \/ TInitDone \/ TGExit \/ TConnAdd \/ TKnownAdd
          \/ TEstablished \/ TReject \/ TConnDel \/ TKnownDel \/ TSessEnd \/ TReq \/ TIdleTick \/ TIdleCut \/ TIdleScanEnd
          \/ TStop \/ THWaitDone \/ THQuiet \/ THEnd \/ TDStart \/ TDial \/ TDialHanded \/ TDialClosed \/ TRedialWait \/ TRedial
          \/ TDExit \/ TLStart \/ TAccept \/ TLExit \/ TOther
